@@ -11,6 +11,7 @@ import (
 	"sort"
 	"strings"
 	"syscall"
+	"time"
 
 	"github.com/pkg/sftp"
 )
@@ -275,5 +276,77 @@ func runC09(c *Ctx) {
 				try(p, rawExtended(id+1, "hardlink@openssh.com", (&rb{}).str(path).str(o+"2").b), true, "rnd")
 			}
 		}
+	}
+	c09Bursts(c, root)
+}
+
+// c09Bursts (kind roburst): modifying requests pipelined - written in one go, without waiting for the replies - to a read-only
+// server: every single one is answered permission-denied, each reply carries the id of its own request (every id exactly
+// once), and the tree is untouched.
+func c09Bursts(c *Ctx, root string) {
+	for rep := 0; rep < 6; rep++ {
+		rs, err := newRawSession(pairOpt{readOnly: true, alloc: rep%2 == 1})
+		if err != nil {
+			c.Diag("roburst session: %v", err)
+			return
+		}
+		before := treeSnapshot(root)
+		n := 6 + 6*rep
+		var stream []byte
+		for k := 0; k < n; k++ {
+			id := uint32(7000 + 13*k)
+			path := filepath.Join(root, []string{"file", "dir", "newdir", "missing"}[k%4])
+			switch k % 5 {
+			case 0:
+				stream = append(stream, rawMkdir(id, path+"x")...)
+			case 1:
+				stream = append(stream, rawPathOp(fxpRemove, id, path)...)
+			case 2:
+				stream = append(stream, rawSetstat(id, path, 4, attrBlock(4, 0, 0, 0, 0o600, 0, 0))...)
+			case 3:
+				stream = append(stream, rawTwoPath(fxpRename, id, path, path+"y")...)
+			default:
+				stream = append(stream, rawOpen(id, path, 0x1a, 0, nil)...)
+			}
+		}
+		rs.conn.SetDeadline(time.Now().Add(10 * time.Second))
+		go rs.conn.Write(stream)
+		seen := map[uint32]int{}
+		codes := map[uint32]int{}
+		got := 0
+		for ; got < n; got++ {
+			fr, err := readFrame(rs.conn)
+			if err != nil {
+				break
+			}
+			seen[fr.ID]++
+			if code, isStatus := fr.statusCode(); isStatus {
+				codes[code]++
+			} else {
+				codes[999]++
+			}
+		}
+		rs.Close()
+		after := treeSnapshot(root)
+		cn := c.Case("roburst", kvi("n", n), kvb("alloc", rep%2 == 1))
+		c.NT(cn)
+		c.Stat("roburst_cases")
+		ok, why := true, ""
+		switch {
+		case got != n:
+			ok, why = false, fmt.Sprintf("pipelined-refusals: %d replies for %d pipelined modifying requests", got, n)
+		case codes[3] != n:
+			ok, why = false, fmt.Sprintf("pipelined-refusals: %d of %d pipelined modifying requests were answered permission-denied (%v)", codes[3], n, codes)
+		case before != after:
+			ok, why = false, "read-only server changed the tree under pipelined requests: "+snapDiff(before, after)
+		default:
+			for k := 0; k < n; k++ {
+				if seen[uint32(7000+13*k)] != 1 {
+					ok, why = false, fmt.Sprintf("pipelined-refusals: the refusal of request id %d arrived %d times (ids seen: %d distinct for %d requests)", 7000+13*k, seen[uint32(7000+13*k)], len(seen), n)
+					break
+				}
+			}
+		}
+		c.Oracle(cn, ok, why)
 	}
 }
